@@ -856,6 +856,8 @@ impl TransactionBuilder {
                 )));
             }
             self.collateral_return = Some(return_output);
+        } else {
+            self.collateral_return = None;
         }
         self.set_total_collateral(total_collateral);
 
